@@ -149,7 +149,9 @@ fn parse(d: &[u8], p: &mut usize, depth: usize) -> Option<Val> {
                     _ => return None,
                 };
                 let v = parse(d, p, depth + 1)?;
-                m.insert(k, v);
+                if m.insert(k, v).is_some() {
+                    return None; // duplicate key
+                }
             }
             *p += 1;
             Some(Val::Dict(m))
